@@ -92,9 +92,9 @@ func flips(dir, mode, outPath string) {
 		for bit := 0; bit < blockSize*8; bit++ {
 			cors = append(cors, corruption{name: "bit", start: bit, mask: []byte{1 << (bit % 8)}})
 		}
-		nBurst := 2000
+		nBurst := 1000
 		if mode == "thorough" {
-			nBurst = 20000
+			nBurst = 5000
 		}
 		for i := 0; i < nBurst; i++ {
 			ln := 2 + rng.Intn(31) // 2..32 bits: always detected by CRC32
@@ -114,16 +114,27 @@ func flips(dir, mode, outPath string) {
 		for _, op := range ops {
 			for ci, cor := range cors {
 				for _, ck := range cows {
-					// quick tier / extra layouts: the full bit sweep for Get and Update without backup;
-					// a seeded 1-in-16 sample of the bits (1-in-8 of the bursts) for the other combinations.
-					full := (op.name == "get" || op.name == "update") && ck == "none" && li == 0
+					// quick tier / extra layouts: the full bit sweep for Get without backup, every 4th bit for Update
+					// without backup, a seeded 1-in-16 sample of the bits for the other combinations.
+					// thorough tier, first layout: every bit for Get (all backup states), every 2nd bit for the writers.
+					stride := 1
 					if mode != "thorough" || li > 0 {
-						if cor.name == "bit" && !full && (cor.start+int(seed()))%16 != 0 {
-							continue
+						switch {
+						case op.name == "get" && ck == "none" && li == 0:
+							stride = 1
+						case op.name == "update" && ck == "none" && li == 0:
+							stride = 4
+						default:
+							stride = 16
 						}
-						if cor.name == "burst" && !full && ci%8 != 0 {
-							continue
-						}
+					} else if op.name != "get" {
+						stride = 2
+					}
+					if cor.name == "bit" && (cor.start+int(seed()))%stride != 0 {
+						continue
+					}
+					if cor.name == "burst" && stride > 1 && ci%(stride/2+1) != 0 {
+						continue
 					}
 					if lim > 0 && len(cases) >= lim {
 						continue
@@ -155,11 +166,17 @@ func flips(dir, mode, outPath string) {
 						w.injected = blk
 					}
 					must(w.setBlock(blk))
+					// content of a full-size backup: an older image of the block (for Add: one in which the slot is still free,
+					// because registry Add of an id that is already present spins until its lock timeout)
+					cowImg := 3
+					if op.name == "add" {
+						cowImg = 0
+					}
 					switch ck {
 					case "valid":
-						must(w.setCow("full", w.images[3]))
+						must(w.setCow("full", w.images[cowImg]))
 					case "invalid":
-						c := append([]byte(nil), w.images[3]...)
+						c := append([]byte(nil), w.images[cowImg]...)
 						c[100] ^= 0x10
 						must(w.setCow("full", c))
 					default:
@@ -168,7 +185,8 @@ func flips(dir, mode, outPath string) {
 					setup := event{"ev": "Setup", "lay": lay, "init_img": op.base}
 					r.obsInto(setup)
 					a := &actor{name: "x", w: w}
-					ctx := context.WithValue(context.Background(), ctxKey{}, a)
+					ctx0, cancel := context.WithTimeout(context.Background(), 20*time.Second)
+					ctx := context.WithValue(ctx0, ctxKey{}, a)
 					var res string
 					var val int
 					actorName := "w1"
@@ -178,6 +196,7 @@ func flips(dir, mode, outPath string) {
 					} else {
 						res, val, _ = w.write(ctx, op.name, op.img)
 					}
+					cancel()
 					run := event{"ev": "Run", "actor": actorName, "img": op.img, "res": res, "val": val}
 					r.obsInto(run)
 					reg := "clean"
